@@ -416,6 +416,7 @@ func c13Draw(t *sim.Tape, o c13GenOpts) *c13Case {
 	if t.Chance(1, 4) {
 		cs.Configured = true
 		cs.Batch = blobstore.RecommendedFindMissingDigestsCount
+		cs.Repeat = t.Chance(1, 2)
 	}
 	nPool := 3 + t.Choose(5)
 	for i := 0; i < nPool; i++ {
